@@ -20,8 +20,9 @@ import (
 type Collection struct {
 	*config
 
-	mu   sync.RWMutex // protects byId and rng from concurrent access
+	mu   sync.RWMutex // protects byId from concurrent access
 	byId map[string]*item
+	rngM sync.Mutex // protects rng, ids are generated while holding only the read lock of mu
 	// "change" events contain a *CollectionChange instance
 	bus minibus.Bus
 }
@@ -356,6 +357,8 @@ func (c *Collection) itemSlice(readConfig *ReadRequest) []idItem {
 }
 
 func (c *Collection) genID() (string, error) {
+	c.rngM.Lock()
+	defer c.rngM.Unlock()
 	id, err := GenerateUniqueId(c.rng, func(candidate string) bool {
 		if c.idInterceptor != nil {
 			candidate = c.idInterceptor(candidate)
